@@ -625,3 +625,35 @@ func c05ClientWire() {
 		check(!dok || bytesEq(got, msg), "a reference server recovers the enveloped request message")
 	}
 }
+
+// HarnessC05CompressedUnaryError: a conformant peer may compress the JSON
+// error body of a non-200 unary Connect response with an algorithm the client
+// advertised: the client must still report the server's code and message.
+//
+//verif:harness property=C05 stubs=json,wire
+func HarnessC05CompressedUnaryError() {
+	msg := nondetString("message", 1)
+	assumeJSONSafe(msg)
+	compressed := nondetBool("compressed")
+	body := c06WireError(true, "not_found", msg)
+	header := http.Header{"Content-Type": {"application/json"}}
+	if compressed {
+		wire := []byte{0xC5}
+		for _, b := range body {
+			wire = append(wire, b^0x5A)
+		}
+		body = wire
+		header.Set("Content-Encoding", "gzip")
+	}
+	tr := &cannedTransport{resp: &http.Response{StatusCode: 404, Status: "404 Not Found", ProtoMajor: 2, Header: header, Body: io.NopCloser(&wholeReader{data: body})}}
+	client := NewClient[[]byte, []byte](tr, stackURL, stackClientOptions(0, c08XorClient("gzip"))...)
+	in := []byte{1}
+	_, err := client.CallUnary(context.Background(), NewRequest(&in))
+	ce, ok := asError(err)
+	check(ok, "the error is a *connect.Error")
+	if ok {
+		check(ce.Code() == CodeNotFound, "the server's error code is decoded from a compressed or uncompressed error body")
+		check(ce.Message() == msg, "the server's error message is decoded from a compressed or uncompressed error body")
+	}
+	check(containsStr(strings.Split(tr.reqHeader.Get("Accept-Encoding"), ","), "gzip"), "the client advertised the algorithm the peer used")
+}
